@@ -100,6 +100,9 @@ structure G where
   fails : List String := []
   lo : Nat := ephLo
   hi : Nat := ephHi
+  /-- targets of connects that were abandoned mid-handshake (on loopback the handshake may
+      already be complete: the server side then has an acceptable child nobody reported) -/
+  cancelled : List Ep := []
 deriving Inhabited
 
 def G.fail (g : G) (msg : String) : G := { g with fails := g.fails ++ [msg] }
@@ -193,6 +196,11 @@ def parseDrain (obs : String) : List (Nat × Nat × String) :=
         | _ => none
     | _ => acc) []
 
+/-- packet tokens of a `wire=` / `reply=` list without the SYN-ACK (re)transmissions of half-open
+    children, which a listener's kernel emits on its own schedule -/
+def withoutSynAcks (list : String) : List String :=
+  if list == "-" then [] else (list.splitOn ",").filter fun t => !((t.splitOn "/SA/").length > 1)
+
 def checkDrain (g : G) (obs : String) : G :=
   let got := parseDrain obs
   let g := g.probes.foldl (fun g p =>
@@ -230,6 +238,21 @@ def step (g : G) (op : R17.Op) (obs : String) : G :=
   | .close _ s =>
     match g.live.find? (·.slot == s) with
     | some x =>
+      -- a closing listener resets only its own unaccepted children: an RST leaving from its port
+      -- must come from an address of its family (`0.0.0.0:p` and `[::]:p` may both listen)
+      let g := if x.kind == 'l' then
+          let toks := (obs.splitOn "wire=").getD 1 "-"
+          let bad := (if toks == "-" then [] else toks.splitOn ",").filter fun t =>
+            match t.splitOn "/" with
+            | ["t", from_, _, flags, _] =>
+              (flags.contains 'R') &&
+                (match parseEp from_ with
+                 | some e => e.port == x.key.port && e.ip.v6 != x.key.v6
+                 | none => false)
+            | _ => false
+          if bad.isEmpty then g
+          else g.fail s!"close s{s}: the listener reset a half-open connection of the other address family: {bad}"
+        else g
       if x.kind == 's' then
         { g with live := g.live.map fun y => if y.slot == s then { y with maybe := true } else y }
       else { g with live := g.live.filter (·.slot != s) }
@@ -245,7 +268,8 @@ def step (g : G) (op : R17.Op) (obs : String) : G :=
         let src : Ep := ⟨Spec.srcSelect (g.addrs.getD h []) x.key.addr ip, x.key.port⟩
         let dh := Spec.routeHost g.addrs h ip
         -- nothing may appear on the wire for a destination local to the sender
-        let g := if (ip.isLoopback || (g.addrs.getD h []).contains ip) && obs != "ok wire=-" then
+        let g := if (ip.isLoopback || (g.addrs.getD h []).contains ip) &&
+            !(withoutSynAcks ((obs.splitOn "wire=").getD 1 "-")).isEmpty then
             g.fail s!"usend s{s}: packet for a local destination left the host" else g
         expectUdp g tag dh src ⟨ip, port⟩
   | .usendc h s tag =>
@@ -260,8 +284,9 @@ def step (g : G) (op : R17.Op) (obs : String) : G :=
           let src : Ep := ⟨Spec.srcSelect (g.addrs.getD h []) x.key.addr p.ip, x.key.port⟩
           expectUdp g tag (Spec.routeHost g.addrs h p.ip) src p
   | .injectudp src dst tag =>
-    let g := if obs != "reply=-" then g.fail "injectudp: datagram produced a reply" else g
+    let g := if !(withoutSynAcks ((obs.drop 6).copy)).isEmpty then g.fail "injectudp: datagram produced a reply" else g
     expectUdp g tag (Spec.routeWire g.addrs dst.ip) src dst
+  | .tconnectcancel _ ip port => { g with cancelled := ⟨ip, port⟩ :: g.cancelled }
   | .drain => checkDrain g obs
   | .tconnect h s ip port =>
     let toks := obs.splitOn " "
@@ -299,28 +324,40 @@ def step (g : G) (op : R17.Op) (obs : String) : G :=
         let g := if !(lsn.key.port == l.port && (lsn.key.addr == l.ip || lsn.key.addr.isUnspec)) then
             g.fail s!"accept s{s}: connection for {lS} handed to a listener bound elsewhere" else g
         let g := if !((g.live.any fun x => x.kind == 's' && x.peer == some l &&
-              (⟨x.key.addr, x.key.port⟩ : Ep) == p)) then
+              (⟨x.key.addr, x.key.port⟩ : Ep) == p)) && !g.cancelled.contains l then
             g.fail s!"accept s{s}: no client ever connected from {pS} to {lS}" else g
         { g with live := { slot := ns, host := h, key := ⟨l.ip.v6, true, l.ip, l.port⟩, peer := some p, kind := 's' } :: g.live }
       | _, _, _ => g
     | _ => g
   | .injectsyn src dst =>
     match Spec.routeWire g.addrs dst.ip with
-    | none => if obs == "reply=-" then g else g.fail "injectsyn: unroutable destination answered"
+    | none =>
+      -- nobody may answer; SYN-ACK retransmissions of unrelated half-open children may ride along
+      if (withoutSynAcks ((obs.drop 6).copy)).isEmpty then g
+      else g.fail "injectsyn: unroutable destination answered"
     | some d =>
       -- a reply addressed to one of the host's own addresses folds back and is invisible
       if isLocalG g d src.ip then g
       else if (streamsOn g d false).contains (dst, src) && !(streamsOn g d true).contains (dst, src) then g
       else
         let exp := Spec.synReply (streamsOn g d true) (listenersOn g d) src dst
-        let want := match exp with
-          | .silent => "reply=-"
-          | .synack => "reply=t/" ++ R17.epTok dst ++ "/" ++ R17.epTok src ++ "/SA/0"
-          | .rst => "reply=t/" ++ R17.epTok dst ++ "/" ++ R17.epTok src ++ "/AR/0"
+        -- what came back for *this* SYN: the replies addressed to its source; anything else in the
+        -- same egress must be a SYN-ACK retransmission of some other half-open child
+        let all := if obs == "reply=-" then [] else ((obs.drop 6).copy.splitOn ",")
+        let toSrc := "/" ++ R17.epTok src ++ "/"
+        let mine := all.filter fun t => (t.splitOn toSrc).length > 1
+        let others := all.filter fun t => !((t.splitOn toSrc).length > 1)
+        let g := if others.any fun t => !((t.splitOn "/SA/").length > 1) then
+            g.fail s!"injectsyn {R17.epTok src}>{R17.epTok dst}: unrelated packets {obs}" else g
+        let pre := "t/" ++ R17.epTok dst ++ "/" ++ R17.epTok src
+        let want : List String := match exp with
+          | .silent => []
+          | .synack => [pre ++ "/SA/0"]
+          | .rst => [pre ++ "/AR/0"]
         -- a SYN on an existing 4-tuple must reach that connection and no listener: silence and
         -- an ACK from that connection's endpoint are both fine, a SYN-ACK or RST is not
-        let alt := "reply=t/" ++ R17.epTok dst ++ "/" ++ R17.epTok src ++ "/A/0"
-        if obs == want || (exp == .silent && obs == alt) then g else g.fail s!"injectsyn {R17.epTok src}>{R17.epTok dst}: got {obs}, expected {want}"
+        if mine == want || (exp == .silent && mine == [pre ++ "/A/0"]) then g
+        else g.fail s!"injectsyn {R17.epTok src}>{R17.epTok dst}: got {obs}, expected {want}"
   | _ => g
 
 end O17
